@@ -2,6 +2,7 @@
 # tools/seedrun2.sh <seed-id> [prop ...] — like seedrun.sh but without touching /repo or /verif: the change is
 # applied in a throw-away git worktree of /repo's HEAD (/tmp/seedwt/<id>) and the quick check runs from a copy of
 # /verif (/tmp/vcopy/<id>) with VERIF_REPO / VERIF_ROOT pointing there, so it can run next to other checks.
+# SEED_REV pins the /repo revision, SEED_VERIF the copy of /verif to take the harness from (a frozen snapshot for a "first pass").
 # (The protocol run that fills seeded/final-results.log uses seedrun.sh, i.e. /repo itself.)
 id="$1"; shift
 dir=/verif/seeded/$id
@@ -11,9 +12,9 @@ props="$*"
 wt=/tmp/seedwt/$id; vc=/tmp/vcopy/$id
 rm -rf "$vc"; mkdir -p /tmp/seedwt /tmp/vcopy "$vc"
 git -C /repo worktree remove --force "$wt" >/dev/null 2>&1
-git -C /repo worktree add -q --detach "$wt" HEAD || { echo "$id: worktree failed"; exit 2; }
+git -C /repo worktree add -q --detach "$wt" "${SEED_REV:-HEAD}" || { echo "$id: worktree failed"; exit 2; }
 git -C "$wt" apply "$dir/patch.diff" || { echo "$id: patch does not apply"; git -C /repo worktree remove --force "$wt"; exit 2; }
-rsync -a --exclude .git --exclude evidence --exclude replays --exclude seeded /verif/ "$vc"/
+rsync -a --exclude .git --exclude evidence --exclude replays --exclude seeded "${SEED_VERIF:-/verif}"/ "$vc"/
 for p in $props; do
   out=$(cd "$vc/harness" && VERIF_REPO=$wt VERIF_ROOT=$vc GOFLAGS=-mod=mod GOPROXY=off GOSUMDB=off GOTOOLCHAIN=local go run ./cmd/vcheck -prop "$p" -tier quick ${SEED_CASES:+-cases $SEED_CASES} 2>&1); code=$?
   line=$(printf '%s\n' "$out" | grep -E '^(VIOLATION|ERROR)' | head -1)
